@@ -4,6 +4,7 @@ import (
 	"fmt"
 	"go/token"
 	"go/types"
+	"strings"
 
 	"cachelint/internal/core"
 	"cachelint/internal/sym"
@@ -14,7 +15,7 @@ import (
 func init() {
 	Registry["C08"] = C08
 	Metas["C08"] = Meta{
-		Explanation: "Decides the counter-pairing clauses of C08 on every path: (S1) in the compute core, under each mode, a path that clears a slot performs exactly one counter update of -1, a path that fills an empty slot or links a new bucket exactly one of +1, a path that replaces a value or changes nothing performs none; the delta is a constant and the update goes, atomically, to the very table the attempt validated and modified; (S2) the resize copy returns a count incremented once per appended entry and nowhere else, resize adds it once per source bucket to the new, still unpublished table, and the clear hint copies nothing into a fresh zero-count table; (S3) Size sums every stripe of the currently published table and every return of Count hands out the Size the underlying map reported to that very call (not a remembered or adjusted number); (S4) no counter update exists outside the functions analysed by S1/S2; (S5) a Clear request cannot be dropped (restated from C03/C04.P7), so Count is 0 right after Clear. NOT decided: exactness over concurrent histories (it follows from S1+S2 together with the protocol shape of C03/C04, whose structural parts are decided there).",
+		Explanation: "Decides the counter-pairing clauses of C08 on every path: (S1) in the compute core, under each mode, a path that clears a slot performs exactly one counter update of -1, a path that fills an empty slot or links a new bucket exactly one of +1, a path that replaces a value or changes nothing performs none; the delta is a constant and the update goes, atomically, to the very table the attempt validated and modified; (S2) the resize copy returns a count incremented once per appended entry and nowhere else, resize adds it once per source bucket to the new, still unpublished table, and the clear hint copies nothing into a fresh zero-count table; (S3) Size sums every stripe of the currently published table and every return of Count hands out the Size the underlying map reported to that very call (not a remembered or adjusted number); (S4) no counter update exists outside the functions analysed by S1/S2; (S5) a Clear request cannot be dropped (restated from C03/C04.P7), so Count is 0 right after Clear; (S6) DeleteExpired and Clear do their pass on every path; (S7) the sweep judges expiry as the reference does, against a clock reading of the call (restated from C01.T1/T3: a rounded or cached instant leaves expired entries counted); (S8) a table's counter stripes are written plainly only into a fresh allocation (restated from C14.A1 for the stripe type: a recycled stripe array receives the late updates of writers of the table it came from). NOT decided: exactness over concurrent histories (it follows from S1+S2 together with the protocol shape of C03/C04, whose structural parts are decided there).",
 		Rule:        "one obligation per (rule, specialisation, exit | block | call site); non-trivial = decided from explored product-graph paths or resolved call sites",
 		Assumptions: []string{"C03/C04 protocol shape (writers validated on the table they modify; copy under the bucket lock)", "sync/atomic.AddInt64 is atomic"},
 	}
@@ -64,6 +65,43 @@ func C08(r *Run) *core.Report {
 		}
 	}
 	rep.MinCount("C08.S6", "cleanup entry points", n6, 4)
+	// ... and 'the live-entry count right after DeleteExpired' is about the entries that are expired *now*: the sweep
+	// decides as the reference does, against a clock reading of this call (restated from C01.T1 / T3 for the sweep:
+	// a rounded, cached or earlier instant leaves entries that have expired counted)
+	{
+		tmp := core.NewReport("C08")
+		for twin := 0; twin < 2; twin++ {
+			mp := methodPaths(r, twin, "DeleteExpired")
+			if undecidedPaths(r, core.NewReport("C08"), "C08.S0", mp) {
+				continue
+			}
+			c01T2T4(r, tmp, mp)
+			tableCheck(r, tmp, "C01.T3", mp)
+		}
+		n7 := borrow(rep, tmp, "C08.S7", "C01.T1", "C01.T3")
+		rep.MinCount("C08.S7", "premise obligations (the sweep judges expiry as the reference does)", n7, 2)
+	}
+	// S8: a table's counter is its own: the stripe words are written plainly only into a fresh, unpublished allocation
+	// (restated from C14.A1 for the stripe type) - a recycled or shared stripe array receives the late updates of
+	// writers still working on the table it came from
+	{
+		tmp := core.NewReport("C08")
+		c14Accesses(r, tmp, apiReachable(r))
+		n8 := 0
+		if st := r.M.StripeType(); st != "" {
+			for _, o := range tmp.Obs {
+				if o.Trivial || o.Rule != "C14.A1" || !strings.Contains(o.Construct, " of "+st+".") {
+					continue
+				}
+				c := *o
+				c.Construct = "[" + o.Rule + "] " + o.Construct
+				c.Rule = "C08.S8"
+				rep.Obs = append(rep.Obs, &c)
+				n8++
+			}
+		}
+		rep.MinCount("C08.S8", "premise obligations (accesses to counter stripes)", n8, 2)
+	}
 	return rep
 }
 
